@@ -1152,6 +1152,29 @@ def analyse_builder(prog, F, W, fn):
                 F.add('R06d', n, fn, whatd, 'undecided', '; '.join(und))
             else:
                 F.add('R06d', n, fn, whatd, 'ok', 'search called on every iteration; dist / pred vectors declared inside the loop')
+    # R05b (sum type): weights are summed in the weight type: std::accumulate / parallel_reduce start values have the element type
+    for f in fns:
+        for n in f.walk():
+            if n.k == 'CallExpr' and n.callee and n.callee['g'] == 'std::accumulate' and len(n.args()) >= 3:
+                it = prog.base_type(n.args()[2].strip_all().j.get('t')) or {}
+                a0 = n.args()[0].strip_all()
+                cont = a0.object_arg().strip_all() if a0.k == 'CXXMemberCallExpr' and a0.object_arg() is not None else None
+                ct = prog.base_type(cont.j.get('t')) if cont is not None else None
+                el = None
+                for ta in ((ct or {}).get('targs') or []):
+                    if isinstance(ta, int):
+                        el = prog.base_type(ta) or {}
+                        break
+                whats = 'weights are accumulated in the weight type'
+                if el is None or not el.get('arith'):
+                    continue
+                if it.get('float') and not el.get('float'):
+                    F.add('R05b', n, fn, whats, 'violation',
+                          'std::accumulate starts from `%s` of type %s while the summed elements are %s: the sum of integral weights is computed in floating point and '
+                          'rounded above 2^53, the returned value differs from the weight of the emitted cycles' % (n.args()[2].text(10), it.get('s'), el.get('s')),
+                          key='R05b|%s|accumulate-type' % fn.g)
+                else:
+                    F.add('R05b', n, fn, whats, 'ok', 'start value of type %s' % it.get('s'))
     # any other search routine of the library run on the spanner from inside the builder
     wtypes = set()
     for f in fns:
